@@ -1,23 +1,601 @@
+// C22 runner: ALPS against the scripted server of /repo/verif_server.go.
+//
+//   - live TLS 1.3 handshakes: ALPS-capable parrots (specs carrying ApplicationSettingsExtension / ApplicationSettingsExtensionNew)
+//     plus a few others (the client accepts ALPS whether or not it offered it) x server code point {17513, 17613, both} x
+//     Config.ApplicationSettings maps x the ALPN protocol the server selects; negatives: ALPS without ALPN, ALPS with an
+//     ALPN protocol the client did not offer, ALPS next to early_data / quic_transport_parameters, ALPS in a TLS 1.2 / 1.1 ServerHello;
+//   - parser level (hooks/verif_c22.go, verif_c34.go): encryptedExtensionsMsg.unmarshal on generated and mutated
+//     EncryptedExtensions, utlsClientEncryptedExtensionsMsg.marshal up to and beyond the 16-bit limits, and
+//     utlsClientEncryptedExtensionsMsg.unmarshal on every client EncryptedExtensions a server captured.
+//
+// Go-side oracle (from the property text, independent of the Coq model): alps-peer/<parrot>, alps-local/<parrot>,
+// alps-finished/<parrot>, alps-reject/<kind>.
 package main
 
 import (
+	"bytes"
 	"fmt"
+	"net"
+	"sort"
 
 	tls "github.com/refraction-networking/utls"
 	"verif/harness/hs"
+	"verif/harness/vh"
 )
 
-func main() {
-	p := hs.SharedPKI()
-	for _, cp := range []uint16{17513, 17613} {
-		s := &tls.VerifServerScript{ALPSCodepoint: cp, ALPSData: []byte("server-settings"), ReadClientEE: true}
-		ccfg := p.ClientConfig()
-		ccfg.ApplicationSettings = map[string][]byte{"h2": []byte("client-settings"), "": []byte("EMPTYKEY")}
-		r := hs.Run(hs.Opts{ID: tls.HelloChrome_120, ClientCfg: ccfg, ServerCfg: p.ServerConfig("h2"), Script: s})
-		fmt.Printf("cp=%d clientErr=%v serverErr=%v peer=%q proto=%q ee=%x app=%v\n", cp, r.ClientErr, r.ServerErr, r.ClientState.PeerApplicationSettings, r.ClientState.NegotiatedProtocol, r.Trace.ClientEE, r.AppData)
+func main() { vh.Main(map[string]vh.Suite{"C22": {Corr: "Corr.C22Corr", Run: run}}) }
+
+const (
+	cpOld = 17513
+	cpNew = 17613
+)
+
+type parrot struct {
+	hs.Parrot
+	alps uint16 // code point the spec offers, 0 = none
+}
+
+// alpsParrots: every predefined parrot whose spec carries an ALPS extension, then some that do not.
+func alpsParrots(seed int64) []parrot {
+	var with, without []parrot
+	for _, p := range hs.Parrots() {
+		spec, err := tls.UTLSIdToSpec(p.ID)
+		if err != nil {
+			continue
+		}
+		var cp uint16
+		hasALPN := false
+		for _, e := range spec.Extensions {
+			switch e.(type) {
+			case *tls.ApplicationSettingsExtension:
+				cp = cpOld
+			case *tls.ApplicationSettingsExtensionNew:
+				cp = cpNew
+			case *tls.ALPNExtension:
+				hasALPN = true
+			}
+		}
+		if cp != 0 {
+			with = append(with, parrot{p, cp})
+		} else if hasALPN {
+			without = append(without, parrot{p, 0})
+		}
 	}
-	// no ALPN
-	s := &tls.VerifServerScript{ALPSCodepoint: 17513, ALPSData: []byte("x"), ReadClientEE: true}
-	r := hs.Run(hs.Opts{ID: tls.HelloChrome_120, ClientCfg: p.ClientConfig(), ServerCfg: p.ServerConfig(), Script: s})
-	fmt.Printf("noalpn clientErr=%v serverErr=%v alert=%d\n", r.ClientErr, r.ServerErr, r.AlertFromClient)
+	out := with
+	for _, name := range []string{"Firefox_120", "Safari_16_0", "IOS_14"} {
+		for _, p := range without {
+			if p.Name == name {
+				out = append(out, p)
+			}
+		}
+	}
+	out = append(out, parrot{hs.Parrot{Name: "Golang", ID: tls.HelloGolang}, 0})
+	// randomized fingerprints that offer TLS 1.3 and ALPN
+	nr := 0
+	for _, p := range hs.RandomizedParrots(16, seed) {
+		a, b := net.Pipe()
+		uc := tls.UClient(a, &tls.Config{ServerName: hs.ServerName}, p.ID)
+		err := uc.BuildHandshakeState()
+		a.Close()
+		b.Close()
+		if err != nil {
+			continue
+		}
+		v := tls.VerifClientViewOf(uc)
+		if hs.ContainsU16(v.SupportedVersions, tls.VersionTLS13) && len(v.ALPN) > 0 && nr < 2 {
+			out = append(out, parrot{p, 0})
+			nr++
+		}
+	}
+	return out
+}
+
+type mapKind struct {
+	name string
+	mk   func(rb func(int) []byte) map[string][]byte
+}
+
+var mapKinds = []mapKind{
+	{"h2-only", func(rb func(int) []byte) map[string][]byte { return map[string][]byte{"h2": rb(12)} }},
+	{"both", func(rb func(int) []byte) map[string][]byte {
+		return map[string][]byte{"h2": rb(9), "http/1.1": rb(7)}
+	}},
+	// the F-22 witness: settings stored under the empty protocol name must never be what is sent for "h2"
+	{"emptykey", func(rb func(int) []byte) map[string][]byte {
+		return map[string][]byte{"": []byte("EMPTYKEY"), "h2": rb(10), "http/1.1": rb(5)}
+	}},
+	{"other-only", func(rb func(int) []byte) map[string][]byte { return map[string][]byte{"spdy/3": rb(6)} }},
+	{"nil", func(rb func(int) []byte) map[string][]byte { return nil }},
+	{"empty-value", func(rb func(int) []byte) map[string][]byte {
+		return map[string][]byte{"h2": {}, "http/1.1": {}}
+	}},
+	{"long", func(rb func(int) []byte) map[string][]byte {
+		return map[string][]byte{"h2": rb(300), "http/1.1": rb(260)}
+	}},
+}
+
+func pairsTerm(m map[string][]byte) string {
+	keys := make([]string, 0, len(m))
+	for k := range m {
+		keys = append(keys, k)
+	}
+	sort.Strings(keys)
+	it := make([]string, len(keys))
+	for i, k := range keys {
+		it[i] = fmt.Sprintf("(%s, %s)", vh.Str(k), vh.Bytes(m[k]))
+	}
+	return vh.List(it)
+}
+
+func strsTerm(l []string) string {
+	it := make([]string, len(l))
+	for i, s := range l {
+		it[i] = vh.Str(s)
+	}
+	return vh.List(it)
+}
+
+func optBytes(b []byte) string { return vh.Opt(b != nil, vh.Bytes(b)) }
+
+// decodeClientEE: an independent reading of a client EncryptedExtensions message (one ALPS extension expected).
+func decodeClientEE(b []byte) (cp uint16, settings []byte, ok bool) {
+	if len(b) < 6 || b[0] != 8 {
+		return 0, nil, false
+	}
+	n := int(b[1])<<16 | int(b[2])<<8 | int(b[3])
+	if n != len(b)-4 {
+		return 0, nil, false
+	}
+	el := int(b[4])<<8 | int(b[5])
+	if el != len(b)-6 {
+		return 0, nil, false
+	}
+	e := b[6:]
+	if len(e) < 4 {
+		return 0, nil, false
+	}
+	cp = uint16(e[0])<<8 | uint16(e[1])
+	l := int(e[2])<<8 | int(e[3])
+	if l != len(e)-4 {
+		return 0, nil, false
+	}
+	return cp, e[4:], true
+}
+
+func ext(id uint16, data []byte) []byte {
+	return append([]byte{byte(id >> 8), byte(id), byte(len(data) >> 8), byte(len(data))}, data...)
+}
+
+type scen struct {
+	kind     string // "pos", "dup", "no-alpn", "unoffered-alpn", "ee-early", "ee-quic", "tls12", "tls11"
+	cp       uint16
+	mapKind  int
+	wantH2   bool // server prefers h2 (else http/1.1) among what the client offers
+	alpsLen  int
+	toCoq    bool
+}
+
+func run(c *vh.Ctx) {
+	pki := hs.SharedPKI()
+	rb := func(n int) []byte {
+		b := make([]byte, n)
+		for i := range b {
+			b[i] = byte(c.Rng.Intn(256))
+		}
+		return b
+	}
+	parrots := alpsParrots(c.Seed)
+	c.Extra["parrots"] = len(parrots)
+	nALPS := 0
+	for _, p := range parrots {
+		if p.alps != 0 {
+			nALPS++
+		}
+	}
+	c.Extra["alps_capable_parrots"] = nALPS
+
+	parserCases(c, rb)
+
+	rounds := 1
+	if c.Tier != "quick" {
+		rounds = 1 + c.N/400
+	}
+	live := 0
+	// control: a parrot that cannot complete an honest TLS 1.3 handshake with ALPN against this server says nothing about ALPS
+	usable := parrots[:0:0]
+	for _, p := range parrots {
+		ccfg := pki.ClientConfig()
+		if p.ID == tls.HelloGolang {
+			ccfg.NextProtos = []string{"h2", "http/1.1"}
+		}
+		r := hs.Run(hs.Opts{ID: p.ID, ClientCfg: ccfg, ServerCfg: pki.ServerConfig("h2", "http/1.1")})
+		if r.Completed() && r.ServerErr == nil && r.ClientState.Version == tls.VersionTLS13 && r.ClientState.NegotiatedProtocol != "" {
+			usable = append(usable, p)
+		} else {
+			c.Count("skipped/baseline-handshake-fails/" + p.Name)
+		}
+	}
+	parrots = usable
+	c.Extra["usable_parrots"] = len(parrots)
+	for round := 0; round < rounds; round++ {
+		for pi, p := range parrots {
+			var scs []scen
+			for ci, cp := range []uint16{cpOld, cpNew} {
+				for mk := range mapKinds {
+					if c.Tier == "quick" && p.alps == 0 && mk > 2 {
+						continue // non-ALPS parrots: a reduced grid in the quick tier
+					}
+					lens := []int{15, 0, 1, 32, 7, 24, 3}
+					scs = append(scs, scen{kind: "pos", cp: cp, mapKind: mk, wantH2: (mk+ci+pi+round)%3 != 0, alpsLen: lens[(mk+ci+round)%len(lens)],
+						toCoq: mapKinds[mk].name != "long" || (pi+ci)%4 == 0})
+				}
+			}
+			scs = append(scs,
+				scen{kind: "dup", cp: cpOld, mapKind: 1, wantH2: true, alpsLen: 5, toCoq: true},
+				scen{kind: "dup", cp: cpNew, mapKind: 2, wantH2: pi%2 == 0, alpsLen: 4, toCoq: true},
+				scen{kind: "no-alpn", cp: []uint16{cpOld, cpNew}[pi%2], mapKind: 0, alpsLen: 6, toCoq: true},
+				scen{kind: "unoffered-alpn", cp: []uint16{cpNew, cpOld}[pi%2], mapKind: 1, alpsLen: 6, toCoq: true},
+				scen{kind: "tls12", cp: []uint16{cpOld, cpNew}[pi%2], mapKind: 1, wantH2: true, alpsLen: 6, toCoq: true},
+			)
+			if pi%3 == round%3 {
+				scs = append(scs,
+					scen{kind: "ee-early", cp: cpOld, mapKind: 0, wantH2: true, alpsLen: 3, toCoq: true},
+					scen{kind: "ee-quic", cp: cpNew, mapKind: 0, wantH2: true, alpsLen: 3, toCoq: true},
+					scen{kind: "tls11", cp: cpOld, mapKind: 0, wantH2: true, alpsLen: 3, toCoq: true},
+					scen{kind: "no-alps", cp: 0, mapKind: 1, wantH2: true, toCoq: true})
+			}
+			for _, s := range scs {
+				one(c, pki, p, s, rb)
+				live++
+			}
+		}
+	}
+	c.Extra["live_handshakes"] = live
+}
+
+var liveN int
+
+func one(c *vh.Ctx, pki *hs.PKI, p parrot, s scen, rb func(int) []byte) {
+	settings := mapKinds[s.mapKind].mk(rb)
+	ccfg := pki.ClientConfig()
+	ccfg.ApplicationSettings = settings
+	if p.ID == tls.HelloGolang {
+		ccfg.NextProtos = []string{"h2", "http/1.1"}
+	}
+	alpsData := rb(s.alpsLen)
+	prefs := []string{"h2", "http/1.1"}
+	if !s.wantH2 {
+		prefs = []string{"http/1.1", "h2"}
+	}
+	scfg := pki.ServerConfig(prefs...)
+	script := &tls.VerifServerScript{ALPSCodepoint: s.cp, ALPSData: alpsData, ReadClientEE: s.cp != 0}
+	expCp, expData := s.cp, alpsData
+	var serverEE []byte
+	var mutate func(typ uint8, b []byte) []byte
+	switch s.kind {
+	case "dup":
+		// the other code point as well, after the first: the last one counts
+		other := uint16(cpOld + cpNew - int(s.cp))
+		d2 := rb(s.alpsLen + 2)
+		script.ExtraEncryptedExtensions = append(ext(0x3a3a, rb(2)), ext(other, d2)...)
+		expCp, expData = other, d2
+	case "no-alpn":
+		scfg = pki.ServerConfig()
+	case "unoffered-alpn":
+		script.ALPN = "zz-unoffered"
+	case "ee-early":
+		script.ExtraEncryptedExtensions = ext(42, nil)
+	case "ee-quic":
+		script.ExtraEncryptedExtensions = ext(57, rb(3))
+	case "tls12", "tls11":
+		scfg.MaxVersion = tls.VersionTLS12
+		if s.kind == "tls11" {
+			scfg.MaxVersion = tls.VersionTLS11
+		}
+		script = &tls.VerifServerScript{}
+		mutate = func(typ uint8, b []byte) []byte {
+			if typ == 2 {
+				if nb, ok := addServerHelloExt(b, ext(s.cp, alpsData)); ok {
+					return nb
+				}
+			}
+			return b
+		}
+	}
+	script.MutateHandshakeMsg = func(typ uint8, b []byte) []byte {
+		if mutate != nil {
+			b = mutate(typ, b)
+		}
+		if typ == 8 && serverEE == nil {
+			serverEE = append([]byte(nil), b...)
+		}
+		if typ == 2 && (s.kind == "tls12" || s.kind == "tls11") {
+			serverEE = append([]byte(nil), b...) // the mutated ServerHello, for the report
+		}
+		return b
+	}
+	r := hs.Run(hs.Opts{ID: p.ID, ClientCfg: ccfg, ServerCfg: scfg, Script: script})
+	if r.BuildErr != nil {
+		c.Count("parrot-build-error/" + p.Name)
+		return
+	}
+	if s.kind != "tls12" && s.kind != "tls11" && (r.Wire == nil || !hs.ContainsU16(r.Wire.SupportedVersions, tls.VersionTLS13)) {
+		c.Count("skipped/hello-without-tls13/" + p.Name)
+		return
+	}
+	completed := r.ClientErr == nil
+	peer := r.ClientState.PeerApplicationSettings
+	proto := r.ClientState.NegotiatedProtocol
+	cee := r.Trace.ClientEE
+	input := map[string]any{"parrot": p.Name, "kind": s.kind, "server_codepoint": s.cp, "server_alps": vh.Hex(alpsData),
+		"server_prefs": prefs, "client_settings": hexMap(settings), "client_alpn": r.View.ALPN, "server_message": vh.Hex(serverEE)}
+	got := map[string]any{"client_err": fmt.Sprint(r.ClientErr), "server_err": fmt.Sprint(r.ServerErr), "peer_application_settings": vh.Hex(peer),
+		"negotiated_protocol": proto, "client_encrypted_extensions": vh.Hex(cee), "alert_from_client": r.AlertFromClient, "version": r.ClientState.Version}
+	key := fmt.Sprintf("%s/%s/%d/%s/%v", p.Name, s.kind, s.cp, mapKinds[s.mapKind].name, s.wantH2)
+
+	switch s.kind {
+	case "pos", "dup":
+		want, _ := hs.NegotiatedALPN(prefs, r.View.ALPN)
+		if want == "" {
+			c.Count("skipped/no-common-alpn")
+			return
+		}
+		switch {
+		case !completed:
+			c.Fail("alps-peer/"+p.Name, "the server negotiated application settings for the selected ALPN protocol under TLS 1.3 and the client's handshake failed",
+				input, got, "handshake completes")
+		case r.ClientState.Version != tls.VersionTLS13 || proto != want:
+			c.Fail("alps-setup/"+p.Name, "scripted run did not negotiate TLS 1.3 with the expected ALPN protocol", input, got, want)
+		default:
+			if !bytes.Equal(peer, expData) {
+				c.Fail("alps-peer/"+p.Name, "ConnectionState.PeerApplicationSettings differs from the settings the server sent", input, got, vh.Hex(expData))
+			}
+			gcp, gset, ok := decodeClientEE(cee)
+			wantLocal, configured := settings[proto]
+			switch {
+			case cee == nil:
+				c.Fail("alps-local/"+p.Name, "the client sent no EncryptedExtensions message before its Finished", input, got, "client EncryptedExtensions with application settings")
+			case !ok || gcp != expCp:
+				c.Fail("alps-local/"+p.Name, "the client's EncryptedExtensions does not carry application settings on the code point the server used", input, got, expCp)
+			case configured && !bytes.Equal(gset, wantLocal):
+				c.Fail("alps-local/"+p.Name, "the client's EncryptedExtensions does not carry Config.ApplicationSettings[negotiated protocol]", input, got, vh.Hex(wantLocal))
+			}
+			if r.ServerErr != nil || !r.AppData {
+				c.Fail("alps-finished/"+p.Name, "the server could not finish the handshake (client Finished / first application record) after reading the client's EncryptedExtensions into its transcript",
+					input, got, "server accepts the client Finished")
+			}
+		}
+	case "no-alps":
+		if !completed || len(peer) != 0 || r.ServerErr != nil {
+			c.Fail("alps-absent/"+p.Name, "without application settings from the server the handshake must complete with none exposed and no client EncryptedExtensions", input, got, "completed, none")
+		}
+	case "no-alpn":
+		if completed {
+			c.Fail("alps-reject/no-alpn", "the client accepted application settings although no ALPN protocol was negotiated", input, got, "handshake aborted")
+		}
+	case "unoffered-alpn":
+		if completed {
+			c.Fail("alps-reject/unoffered-alpn", "the client accepted application settings for an ALPN protocol it did not offer", input, got, "handshake aborted")
+		}
+	case "tls12", "tls11":
+		if r.ClientState.Version >= tls.VersionTLS13 && completed {
+			c.Fail("alps-setup/"+p.Name, "scripted run did not negotiate TLS <= 1.2", input, got, "TLS 1.2")
+		} else if completed && (len(peer) != 0 || r.ServerErr != nil) {
+			c.Fail("alps-reject/"+s.kind, "the client accepted (exposed or answered) application settings under TLS below 1.3", input, got, "aborted, or nothing exposed and nothing answered")
+		}
+	}
+	nontrivial := s.cp != 0
+
+	// correspondence with the model
+	if s.kind == "tls12" || s.kind == "tls11" {
+		if !completed && r.ClientState.Version == 0 {
+			// a parrot that cannot speak this version: nothing to compare
+			c.Count("skipped/" + s.kind + "-not-offered")
+			return
+		}
+		var seen []byte
+		if completed && r.ServerErr != nil {
+			seen = []byte{8} // something unexpected reached the server
+		}
+		vers := r.ClientState.Version
+		if vers == 0 {
+			vers = scfg.MaxVersion
+		}
+		c.Case("run12", fmt.Sprintf("(CRun12 %d %s %s %s)", vers, vh.Bool(completed), vh.Bytes(peer), optBytes(seen)), key, nontrivial, input)
+		return
+	}
+	if serverEE == nil {
+		c.Count("skipped/no-server-ee")
+		return
+	}
+	if s.toCoq {
+		c.Case("run13", fmt.Sprintf("(CRun %s %s %s %s %d %s %s %s)", strsTerm(r.View.ALPN), pairsTerm(settings), vh.Bytes(serverEE),
+			vh.Bool(completed), hs.ClientAlert(r), vh.Bytes(peer), vh.Str(proto), optBytes(cee)), key, nontrivial, input)
+		liveN++
+		if liveN%3 == 0 {
+			eeCase(c, serverEE, "live/"+key)
+		}
+		if cee != nil && liveN%3 == 1 {
+			ok, cp, set := tls.VerifC34UnmarshalClientEE(cee)
+			o := "None"
+			if ok {
+				o = fmt.Sprintf("(Some (%d, %s))", cp, vh.Bytes(set))
+			}
+			c.Case("cee-unmarshal", fmt.Sprintf("(CCeeU %s %s)", vh.Bytes(cee), o), "live/"+key, ok, nil)
+		}
+	} else {
+		c.Count("go-oracle-only/" + s.kind)
+	}
+}
+
+func hexMap(m map[string][]byte) map[string]string {
+	out := map[string]string{}
+	for k, v := range m {
+		out[k] = vh.Hex(v)
+	}
+	return out
+}
+
+// addServerHelloExt appends one extension to a ServerHello handshake message and fixes the two length fields.
+func addServerHelloExt(b []byte, e []byte) ([]byte, bool) {
+	if len(b) < 4+2+32+1 {
+		return nil, false
+	}
+	i := 4 + 2 + 32
+	i += 1 + int(b[i]) // session id
+	i += 2 + 1         // suite, compression
+	if i > len(b) {
+		return nil, false
+	}
+	var exts []byte
+	if i < len(b) {
+		if i+2 > len(b) {
+			return nil, false
+		}
+		exts = b[i+2:]
+	}
+	exts = append(append([]byte(nil), exts...), e...)
+	body := append(append([]byte(nil), b[4:i]...), byte(len(exts)>>8), byte(len(exts)))
+	body = append(body, exts...)
+	return append([]byte{b[0], byte(len(body) >> 16), byte(len(body) >> 8), byte(len(body))}, body...), true
+}
+
+// ---------------------------------------------------------------- parser level
+
+func eeMsg(exts []byte) []byte {
+	n := len(exts) + 2
+	return append([]byte{8, byte(n >> 16), byte(n >> 8), byte(n), byte(len(exts) >> 8), byte(len(exts))}, exts...)
+}
+
+func alpnExt(proto string) []byte {
+	d := append([]byte{0, byte(1 + len(proto)), byte(len(proto))}, proto...)
+	return ext(16, d)
+}
+
+func eeCase(c *vh.Ctx, data []byte, key string) {
+	var f tls.VerifEEFields
+	if panicked, val := vh.Recover(func() { f = tls.VerifC22UnmarshalEE(data) }); panicked {
+		c.Fail("panic/encryptedExtensionsMsg.unmarshal", fmt.Sprint(val), vh.Hex(data), "panic", "true or false")
+		return
+	}
+	q, e := "None", "None"
+	if f.HasQUIC {
+		q = "(Some " + vh.Bytes(f.QUIC) + ")"
+	}
+	if f.HasECH {
+		e = "(Some " + vh.Bytes(f.ECH) + ")"
+	}
+	c.Case("ee-unmarshal", fmt.Sprintf("(CEe %s %s %s %d %s %s %s %s)", vh.Bytes(data), vh.Bool(f.OK), vh.Str(f.ALPN), f.Codepoint,
+		vh.Bytes(f.Settings), vh.Bool(f.EarlyData), q, e), key+"|"+vh.Hex(data), f.OK && f.Codepoint != 0, nil)
+}
+
+func parserCases(c *vh.Ctx, rb func(int) []byte) {
+	// (1) encryptedExtensionsMsg.unmarshal
+	shapes := map[string][]byte{
+		"empty":          eeMsg(nil),
+		"alpn":           eeMsg(alpnExt("h2")),
+		"alpn+old":       eeMsg(append(alpnExt("h2"), ext(cpOld, rb(5))...)),
+		"alpn+new":       eeMsg(append(alpnExt("http/1.1"), ext(cpNew, rb(9))...)),
+		"new-empty":      eeMsg(append(alpnExt("h2"), ext(cpNew, nil)...)),
+		"old+new":        eeMsg(append(append(alpnExt("h2"), ext(cpOld, rb(3))...), ext(cpNew, rb(4))...)),
+		"new+old":        eeMsg(append(append(ext(cpNew, rb(3)), ext(cpOld, rb(4))...), alpnExt("h2")...)),
+		"alps-only":      eeMsg(ext(cpOld, rb(6))),
+		"unknown+alps":   eeMsg(append(ext(0x1a1a, rb(2)), ext(cpNew, rb(2))...)),
+		"early":          eeMsg(append(ext(42, nil), ext(cpOld, rb(2))...)),
+		"early-nonempty": eeMsg(ext(42, []byte{1})),
+		"quic":           eeMsg(append(ext(57, rb(4)), ext(cpOld, rb(2))...)),
+		"quic-empty":     eeMsg(ext(57, nil)),
+		"ech":            eeMsg(append(ext(0xfe0d, rb(5)), ext(cpNew, rb(2))...)),
+		"alpn-empty":     eeMsg(ext(16, []byte{0, 0})),
+		"alpn-two":       eeMsg(ext(16, []byte{0, 6, 2, 'h', '2', 2, 'h', '3'})),
+		"alpn-zero-name": eeMsg(ext(16, []byte{0, 1, 0})),
+		"alpn-trailing":  eeMsg(ext(16, []byte{0, 3, 2, 'h', '2', 9})),
+		"alpn-twice":     eeMsg(append(alpnExt("h2"), alpnExt("h3")...)),
+		"custom-1234":    eeMsg(ext(1234, rb(3))),
+	}
+	names := make([]string, 0, len(shapes))
+	for k := range shapes {
+		names = append(names, k)
+	}
+	sort.Strings(names)
+	reps := 1
+	if c.Tier != "quick" {
+		reps = 6
+	}
+	for _, name := range names {
+		base := shapes[name]
+		eeCase(c, base, "shape/"+name)
+		for rep := 0; rep < reps; rep++ {
+			for _, mut := range []string{"truncate", "bitflip", "hs-len", "ext-len", "inner-len", "append", "drop-first"} {
+				d := append([]byte(nil), base...)
+				switch mut {
+				case "truncate":
+					d = d[:c.Rng.Intn(len(d))]
+				case "bitflip":
+					i := c.Rng.Intn(len(d))
+					d[i] ^= 1 << uint(c.Rng.Intn(8))
+				case "hs-len":
+					d[3] += byte(1 + c.Rng.Intn(3))
+				case "ext-len":
+					d[5] += byte(c.Rng.Intn(5)) - 2
+				case "inner-len":
+					if len(d) >= 10 {
+						d[9] += byte(c.Rng.Intn(5)) - 2
+					}
+				case "append":
+					d = append(d, rb(1+c.Rng.Intn(3))...)
+				case "drop-first":
+					d = d[1:]
+				}
+				eeCase(c, d, "mut/"+name+"/"+mut)
+			}
+		}
+	}
+	// (2) utlsClientEncryptedExtensionsMsg.marshal: small values, then the 16-bit limits with zero padding
+	type mc struct {
+		cp       uint16
+		settings []byte
+		pad      int
+		custom   []byte
+	}
+	var mcs []mc
+	for _, cp := range []uint16{0, cpOld, cpNew, 1, 0xffff} {
+		for _, n := range []int{0, 1, 17} {
+			mcs = append(mcs, mc{cp, rb(n), 0, nil})
+		}
+	}
+	mcs = append(mcs, mc{cpOld, rb(3), 0, rb(4)}, mc{0, nil, 0, rb(2)}, mc{cpNew, nil, 0, []byte{}})
+	for _, pad := range []int{65000, 65528, 65529, 65531, 65532, 65533} {
+		mcs = append(mcs, mc{cpNew, []byte{1, 2}, pad, nil})
+	}
+	mcs = append(mcs, mc{0, []byte{1, 2}, 65534, nil}, mc{cpOld, []byte{7}, 65000, rb(600)})
+	for _, m := range mcs {
+		full := append(append([]byte(nil), m.settings...), make([]byte, m.pad)...)
+		out, err := tls.VerifC22MarshalClientEE(m.cp, full, m.custom)
+		o := "None"
+		if err == nil {
+			if m.pad > 0 && len(out) >= m.pad && bytes.Equal(out[len(out)-m.pad:], make([]byte, m.pad)) && len(out)-m.pad < 400 {
+				o = "(Some (" + vh.Bytes(out[:len(out)-m.pad]) + ", true))"
+			} else if len(out) < 400 {
+				o = "(Some (" + vh.Bytes(out) + ", false))"
+			} else {
+				c.Count("marshal-long-skipped") // output too long to ship to Coq as a literal
+				continue
+			}
+		}
+		c.Case("cee-marshal", fmt.Sprintf("(CCeeM %d %s %d %s %s)", m.cp, vh.Bytes(m.settings), m.pad, vh.Bytes(m.custom), o),
+			fmt.Sprint(m.cp, len(m.settings), m.pad, len(m.custom)), err == nil && m.cp != 0, nil)
+		if err == nil && len(out) < 400 {
+			ok, cp, set := tls.VerifC34UnmarshalClientEE(out)
+			d := "None"
+			if ok {
+				d = fmt.Sprintf("(Some (%d, %s))", cp, vh.Bytes(set))
+			}
+			c.Case("cee-unmarshal", fmt.Sprintf("(CCeeU %s %s)", vh.Bytes(out), d), "marshal/"+vh.Hex(out), ok, nil)
+			// codec round trip on the real code (property text: what is sent is what the server decodes)
+			if (m.cp == cpOld || m.cp == cpNew) && len(m.custom) == 0 && (!ok || cp != m.cp || !bytes.Equal(set, full)) {
+				c.Fail("alps-codec", "client EncryptedExtensions does not decode to the settings that were marshaled", vh.Hex(out), fmt.Sprint(ok, cp, vh.Hex(set)), vh.Hex(full))
+			}
+		}
+	}
 }
